@@ -126,6 +126,21 @@ static void body_own_solver(int t, Out& out) {
   SU_vector::clear_mem_cache();
 }
 
+// ------------------------------------------------------------------ body D': hand-over of a vector of another dimension, then thread exit
+// The producer works in dimension 3 (temporaries released into its cache), then builds ONE vector of dimension 4 and gives it
+// away; it releases nothing afterwards and ends without emptying its cache. The consumer releases the received vector and ends too.
+static Chan* g_exit_chan = nullptr;
+static void body_exit_handover(int t, Out& out) {
+  if (t == 0) {
+    { SU_vector a = mkvec(3, probe(3, 0)), b = mkvec(3, probe(3, 1)); SU_vector c = a + b; SU_vector e = squids::iCommutator(a, c); out.push_back(e[1]); }
+    SU_vector gift((unsigned)4); for (int k = 0; k < 16; k++) gift[k] = 0.5 * k;
+    g_exit_chan->send(std::move(gift));
+  } else if (t == 1) {
+    SU_vector got = g_exit_chan->recv(); out.push_back(got[5]);
+    { SU_vector tmp = got * 2.0; out.push_back(tmp[5]); }
+  } else { SU_vector x = mkvec(2, probe(2, 0)); out.push_back(x[1]); }
+}
+
 // ------------------------------------------------------------------ body D: thread exit
 static void body_exit(int t, Out& out) {
   std::vector<SU_vector> vs; for (int d = 2; d <= 6; d++) { vs.emplace_back((unsigned)d); vs.back()[1] = d + t; }
@@ -226,6 +241,7 @@ int main(int argc, char** argv) {
       std::vector<std::thread> th; for (int t = 0; t < n; t++) th.emplace_back([&, t] { body_query(*s, t, out[t]); }); for (auto& x : th) x.join();
       std::string why; count("evaluations"); if (!same(out, ref_, true, why)) violation("free-running:shared-solver:differs-from-sequential", J().i("threads", n).str("why", why).done()); g_shared_op = nullptr; }
     { std::vector<Out> out(n); std::vector<std::thread> th; for (int t = 0; t < n; t++) th.emplace_back([&, t] { body_exit(t, out[t]); }); for (auto& x : th) x.join(); count("evaluations"); }
+    { Chan ch; g_exit_chan = &ch; std::vector<Out> out(n); std::vector<std::thread> th; for (int t = 0; t < n; t++) th.emplace_back([&, t] { body_exit_handover(t, out[t]); }); for (auto& x : th) x.join(); g_exit_chan = nullptr; count("evaluations"); }
     { std::vector<Out> out(n); std::vector<std::thread> th; for (int t = 0; t < n; t++) th.emplace_back([&, t] { body_own_solver(t, out[t]); }); for (auto& x : th) x.join();
       std::vector<Out> solo(n); for (int t = 0; t < n; t++) { std::thread x([&, t] { body_own_solver(t, solo[t]); }); x.join(); }
       std::string why; count("evaluations"); if (!same(out, solo, true, why)) violation("free-running:own-solver:differs-from-solo", J().i("threads", n).str("why", why).done()); }
@@ -249,8 +265,8 @@ int main(int argc, char** argv) {
   Args ar = parse(argc, argv); quiet_gsl(); install_crash_reporter(); g_handler0 = current_gsl_handler();
   for (int d = 2; d <= 6; d++) ref::basis(d);
   bool th = ar.thorough();
-  std::vector<Scenario> scen = {{"own-vectors", 2, 2}, {"hand-over-ring", 2, 2}, {"shared-solver", 2, 2}, {"thread-exit", 2, 1}, {"own-solver", 2, 1}, {"library-calls", 2, 1}};
-  if (th) { scen = {{"library-calls", 2, 2}, {"library-calls", 3, 1}, {"own-vectors", 2, 3}, {"own-vectors", 3, 2}, {"hand-over-ring", 2, 4}, {"hand-over-ring", 3, 3}, {"shared-solver", 2, 3}, {"shared-solver", 3, 2}, {"thread-exit", 2, 2}, {"thread-exit", 3, 1}, {"own-solver", 2, 2}, {"own-solver", 3, 1}}; }
+  std::vector<Scenario> scen = {{"own-vectors", 2, 2}, {"hand-over-ring", 2, 2}, {"shared-solver", 2, 2}, {"thread-exit", 2, 1}, {"thread-exit-after-hand-over", 2, 2}, {"own-solver", 2, 1}, {"library-calls", 2, 1}};
+  if (th) { scen = {{"library-calls", 2, 2}, {"library-calls", 3, 1}, {"own-vectors", 2, 3}, {"own-vectors", 3, 2}, {"hand-over-ring", 2, 4}, {"hand-over-ring", 3, 3}, {"shared-solver", 2, 3}, {"shared-solver", 3, 2}, {"thread-exit", 2, 2}, {"thread-exit", 3, 1}, {"thread-exit-after-hand-over", 2, 4}, {"thread-exit-after-hand-over", 3, 2}, {"own-solver", 2, 2}, {"own-solver", 3, 1}}; }
   long sc_index = 0, total_exec = 0, total_points = 0;
   arena::A().hook = []() { sched::point(); };
   for (auto& sc : scen) {
@@ -265,6 +281,7 @@ int main(int argc, char** argv) {
       else if (sc.name == "own-vectors") for (int t = 0; t < sc.n; t++) ex.spawn([t]() { body_own(t, g_out[t]); });
       else if (sc.name == "hand-over-ring") { delete g_ring; g_ring = new Ring(); g_ring->n = sc.n; for (int t = 0; t < sc.n; t++) g_ring->ch.emplace_back(new Chan()); for (int t = 0; t < sc.n; t++) ex.spawn([t]() { body_ring(*g_ring, t, g_out[t]); }); }
       else if (sc.name == "shared-solver") { g_solver = make_solver(3); static std::unique_ptr<SU_vector> shop; shop.reset(new SU_vector(mkvec(3, probe(3, 1)))); g_shared_op = shop.get(); g_shop_owner = &shop; g_expect_query.assign(sc.n, Out()); for (int t = 0; t < sc.n; t++) body_query(*g_solver, t, g_expect_query[t], false); for (int t = 0; t < sc.n; t++) ex.spawn([t]() { body_query(*g_solver, t, g_out[t]); }); }
+      else if (sc.name == "thread-exit-after-hand-over") { delete g_exit_chan; g_exit_chan = new Chan(); for (int t = 0; t < sc.n; t++) ex.spawn([t]() { body_exit_handover(t, g_out[t]); }); }
       else if (sc.name == "own-solver") { for (int t = 0; t < sc.n; t++) ex.spawn([t]() { body_own_solver(t, g_out[t]); }); }
       else { for (int t = 0; t < sc.n; t++) ex.spawn([t]() { body_exit(t, g_out[t]); }); }
       g_live_before_threads = A.live_blocks();
@@ -277,14 +294,15 @@ int main(int argc, char** argv) {
       if (!opaque::conflict.empty()) { viol++; violation("threads:" + sc.name + ":two-threads-in-library-calls-on-one-object", ctx + ",\"what\":" + jstr(opaque::conflict) + "}"); }
       if (current_gsl_handler() != g_handler0) { viol++; violation("threads:" + sc.name + ":process-wide-error-handler-changed", ctx + "}"); gsl_set_error_handler(g_handler0); }
       // every worker thread has ended (joined): what it cached must have been given back
-      if (sc.name == "thread-exit") { long live = A.live_blocks() - g_live_before_threads; if (live != 0) { viol++; violation("thread-exit:cached-blocks-not-released", ctx + ",\"blocks_still_live\":" + std::to_string(live) + "}"); } }
+      if (sc.name == "thread-exit-after-hand-over") { delete g_exit_chan; g_exit_chan = nullptr; }
+      if (sc.name == "thread-exit" || sc.name == "thread-exit-after-hand-over") { long live = A.live_blocks() - g_live_before_threads; if (live != 0) { viol++; violation("thread-exit:cached-blocks-not-released", ctx + ",\"blocks_still_live\":" + std::to_string(live) + "}"); } }
       // main-thread teardown
       if (g_ring) { delete g_ring; g_ring = nullptr; }
       g_solver.reset();
       if (g_shop_owner) { g_shop_owner->reset(); g_shop_owner = nullptr; } g_shared_op = nullptr;
       SU_vector::clear_mem_cache();
       if (A.errors()) { viol++; violation("threads:" + sc.name + ":ledger:" + A.first_error, ctx + "}"); }
-      else if (sc.name != "thread-exit" && A.live_blocks()) { viol++; violation("threads:" + sc.name + ":blocks-retained-after-all-threads-ended", ctx + ",\"blocks_still_live\":" + std::to_string(A.live_blocks()) + "}"); }
+      else if (sc.name != "thread-exit" && sc.name != "thread-exit-after-hand-over" && A.live_blocks()) { viol++; violation("threads:" + sc.name + ":blocks-retained-after-all-threads-ended", ctx + ",\"blocks_still_live\":" + std::to_string(A.live_blocks()) + "}"); }
       A.active = false;
       // results: bit-identical to the sequential schedule (first execution) / to the main thread's values
       std::string why;
